@@ -84,6 +84,12 @@ impl Semaphore {
     }
 
     pub fn available_permits(&self) -> usize {
+        point(Op::SemAvailablePermits, self.id);
+        self.inner.available_permits()
+    }
+
+    /// Never a scheduling point; used by snapshot accessors.
+    pub fn available_permits_silent(&self) -> usize {
         self.inner.available_permits()
     }
 
